@@ -10,5 +10,6 @@ CONSTANTS
   QCap = 0
   Gating = FALSE
   QfRet = TRUE
+  LexG = "full"
 INVARIANT InvExactlyOneResponse
 CHECK_DEADLOCK FALSE
